@@ -100,6 +100,8 @@ def native_bitwise_axiom_check(seed: int = 0) -> int:
                 for f in (lambda a, b: a & b, lambda a, b: a | b, lambda a, b: a ^ b):
                     assert f(x, y) % M == f(x % M, y % M)
                     n += 1
+            # identities with the all-zero pattern used as axioms by C14 (both operand orders)
+            assert (x & 0, 0 & x, x | 0, 0 | x, x ^ 0, 0 ^ x) == (0, 0, x, x, x, x)
     rnd = random.Random(seed)
     for _ in range(2000):
         w = rnd.choice([8, 16, 31, 32, 64, 128])
